@@ -162,6 +162,15 @@ type seqInput struct {
 	Current segInput `json:"image_of_the_failing_call"`
 }
 
+// what a HashBuffer of SE[0] holds, as far as the harness knows
+type digSlot struct {
+	buf     []byte // copy of the buffer's bytes as last seen
+	id      bool   // buf is the digest, made with algorithm alg, of pre
+	alg     int64
+	pre     []byte
+	foreign bool // bytes the caller (the harness) put there which are no such digest
+}
+
 type world struct {
 	ver    int
 	nSE    int
@@ -177,12 +186,10 @@ type world struct {
 	fails  []seqFail
 	oks    int
 	unspec int
-	// digest slots of SE[0]: the preimage the harness identified for the stored HashBuffer
-	digBuf [][]byte
-	digPre [][]byte
-	digID  []bool
-	stale  bool // the file was stitched: load before anything else
-	exp0   []seg // what SE[0] holds if every call so far did what the property says
+	// digest slots of SE[0]: what the harness knows about the stored HashBuffer
+	slots []digSlot
+	stale bool  // the file was stitched: load before anything else
+	exp0  []seg // what SE[0] holds if every call so far did what the property says
 }
 
 func (w *world) algs() []uint16 {
@@ -208,9 +215,7 @@ func (w *world) setAlgs(algs []uint16) {
 		w.b.VData.CBNTbpm.SE[0].DigestList.List = l
 		w.b.VData.CBNTbpm.SE[0].DigestList.Size = uint16(len(algs))
 	}
-	w.digBuf = make([][]byte, len(algs))
-	w.digPre = make([][]byte, len(algs))
-	w.digID = make([]bool, len(algs))
+	w.slots = make([]digSlot, len(algs))
 }
 
 func (w *world) setSegsAt(se int, s []seg) {
@@ -276,22 +281,26 @@ func identify(alg int64, d []byte, cands [][]byte) ([]byte, bool) {
 func (w *world) snapshot(segsAtCall []seg) string {
 	ds := getDigests(w.b, w.ver)
 	algs := w.algs()
-	if len(ds) != len(w.digBuf) { // list replaced by the code under test: start over
-		w.digBuf = make([][]byte, len(ds))
-		w.digPre = make([][]byte, len(ds))
-		w.digID = make([]bool, len(ds))
+	if len(ds) != len(w.slots) { // list replaced by the code under test: start over
+		w.slots = make([]digSlot, len(ds))
 	}
 	var dl []string
 	for i, d := range ds {
-		if !bytes.Equal(d, w.digBuf[i]) {
-			w.digBuf[i] = append([]byte(nil), d...)
-			w.digPre[i], w.digID[i] = identify(int64(algs[i]), d, w.candidates(segsAtCall))
+		sl := &w.slots[i]
+		if !bytes.Equal(d, sl.buf) {
+			// the call changed the buffer: whose digest is it now?
+			*sl = digSlot{buf: append([]byte(nil), d...), alg: int64(algs[i])}
+			sl.pre, sl.id = identify(sl.alg, d, w.candidates(segsAtCall))
 		}
 		switch {
 		case len(d) == 0:
 			dl = append(dl, gal.Pair(gal.Z(int64(algs[i])), "(-1, 0)"))
-		case w.digID[i]:
-			dl = append(dl, gal.Pair(gal.Z(int64(algs[i])), fpLit(w.digPre[i])))
+		case sl.id && sl.alg == int64(algs[i]):
+			dl = append(dl, gal.Pair(gal.Z(int64(algs[i])), fpLit(sl.pre)))
+		case sl.id || sl.foreign:
+			// a digest made with another algorithm than the entry's (the caller changed HashAlg and
+			// kept the buffer), or bytes the caller put there: no digest under this algorithm
+			dl = append(dl, gal.Pair(gal.Z(int64(algs[i])), "(-1, 0)"))
 		default:
 			dl = append(dl, gal.Pair(gal.Z(int64(algs[i])), "(-3, 0)"))
 		}
@@ -466,6 +475,101 @@ func (w *world) opSetAlgs() {
 	}
 	w.log = append(w.log, fmt.Sprintf("(caller) digest list of SE[0] = empty digests %v", algs))
 	w.step("KSetAlgs "+gal.ZList64(al), nil)
+}
+
+// The caller rewrites the digest list of SE[0] while the object is in use, as a tool does that
+// loads a manifest that comes with digests (ReadJSON, a parsed BPM, the config an earlier run
+// wrote) or changes the IBB hash algorithm of a manifest it already filled: entries are kept
+// WITH their HashBuffer (the same slice) under the same, a shorter or a longer algorithm, moved
+// to another position, dropped; new entries come with no buffer, with bytes of any length, or
+// with a genuine digest of the current segments (made with the entry's or another algorithm).
+func (w *world) opEditDigs() {
+	oldAlgs := w.algs()
+	oldBufs := getDigests(w.b, w.ver)
+	oldSlots := w.slots
+	k := 1
+	if w.ver == 2 {
+		k = pick(1, 1, 2, 2, 3, 4)
+		if rng.Intn(16) == 0 {
+			k = 0
+		}
+	}
+	pickAlg := func() uint16 {
+		if w.ver == 1 {
+			return pick[uint16](4, 11)
+		}
+		if rng.Intn(24) == 0 {
+			return 13
+		}
+		return pick[uint16](4, 11, 12, 18, 11, 12)
+	}
+	segs := getSegs(w.b, w.ver, 0)
+	spec, specOK := specPreimage(w.cur, segs)
+	used := map[int]bool{}
+	var algs []uint16
+	var bufs [][]byte
+	var slots []digSlot
+	var lits, descr []string
+	for j := 0; j < k; j++ {
+		ix := -1
+		if len(oldAlgs) > 0 && rng.Intn(3) != 0 {
+			ix = rng.Intn(len(oldAlgs))
+			if used[ix] {
+				ix = -1
+			}
+		}
+		if ix >= 0 {
+			used[ix] = true
+			a := oldAlgs[ix]
+			if rng.Intn(3) != 0 {
+				a = pickAlg()
+			}
+			algs, bufs, slots = append(algs, a), append(bufs, oldBufs[ix]), append(slots, oldSlots[ix])
+			lits = append(lits, fmt.Sprintf("EKeep %d%%nat %d", ix, a))
+			descr = append(descr, fmt.Sprintf("[%d]: the entry that was [%d] (algorithm %d, buffer of %d bytes kept) under algorithm %d", j, ix, oldAlgs[ix], len(oldBufs[ix]), a))
+			continue
+		}
+		a := pickAlg()
+		switch r := rng.Intn(6); {
+		case r == 0:
+			algs, bufs, slots = append(algs, a), append(bufs, nil), append(slots, digSlot{})
+			lits = append(lits, fmt.Sprintf("ENew %d None", a))
+			descr = append(descr, fmt.Sprintf("[%d]: new, algorithm %d, no buffer", j, a))
+		case r < 3 && specOK && len(spec) <= 0x600:
+			// a genuine digest of the current segments, made with the entry's algorithm or another one
+			x := int64(a)
+			if rng.Intn(2) == 0 {
+				x = int64(pick(4, 11, 12, 18))
+			}
+			d := goHash(x, spec)
+			algs, bufs = append(algs, a), append(bufs, d)
+			slots = append(slots, digSlot{buf: append([]byte(nil), d...), id: true, alg: x, pre: spec})
+			lits = append(lits, fmt.Sprintf("ENew %d (Some (%d, %s))", a, x, gal.Bytes(spec)))
+			descr = append(descr, fmt.Sprintf("[%d]: new, algorithm %d, buffer = digest (algorithm %d) of the current segments' bytes in image #%d", j, a, x, w.curIx))
+		default:
+			n := pick(1, 5, 19, 20, 21, 31, 32, 33, 47, 48, 49, 64, 100)
+			d := blob(n, byte(0xd0+j))
+			algs, bufs = append(algs, a), append(bufs, d)
+			slots = append(slots, digSlot{buf: append([]byte(nil), d...), foreign: true})
+			lits = append(lits, fmt.Sprintf("ENew %d None", a))
+			descr = append(descr, fmt.Sprintf("[%d]: new, algorithm %d, buffer of %d bytes that are no digest", j, a, n))
+		}
+	}
+	if w.ver == 1 {
+		w.b.VData.BGbpm.SE[0].Digest.HashAlg = bg.Algorithm(algs[0])
+		w.b.VData.BGbpm.SE[0].Digest.HashBuffer = bufs[0]
+	} else {
+		l := make([]cbnt.HashStructure, len(algs))
+		for i := range algs {
+			l[i].HashAlg, l[i].HashBuffer = cbnt.Algorithm(algs[i]), bufs[i]
+		}
+		w.b.VData.CBNTbpm.SE[0].DigestList.List = l
+		w.b.VData.CBNTbpm.SE[0].DigestList.Size = uint16(len(algs))
+	}
+	w.slots = slots
+	w.log = append(w.log, "(caller) digest list of SE[0] rewritten: "+strings.Join(descr, ", "))
+	ctx.Count("seq/digest-list-rewritten")
+	w.step("KEditDigs "+gal.List(lits), nil)
 }
 
 func (w *world) opCreateSegs() {
@@ -654,9 +758,7 @@ func caseSequence() {
 		}
 	}
 	w.b = newBG(w.ver, w.nSE, algs...)
-	w.digBuf = make([][]byte, len(algs))
-	w.digPre = make([][]byte, len(algs))
-	w.digID = make([]bool, len(algs))
+	w.slots = make([]digSlot, len(algs))
 	w.nextImage()
 	// a manifest that comes with segment lists (ReadJSON / a parsed BPM / an earlier run)
 	init := make([][]seg, w.nSE)
@@ -671,6 +773,10 @@ func caseSequence() {
 			}
 		}
 		w.log = append(w.log, fmt.Sprintf("manifest loaded with segment lists %v", init))
+	}
+	// ... and with digests
+	if rng.Intn(3) == 0 {
+		w.opEditDigs()
 	}
 	stitch := func() {
 		caseStitchAt(w.cur, w.path, " (file name used before)"+w.history())
@@ -711,13 +817,13 @@ func caseSequence() {
 		im := w.cur
 		canCreate := !im.NoFit
 		heavy := w.bigSegs()
-		switch r := rng.Intn(20); {
-		case r < 1:
+		switch r := rng.Intn(22) - 2; {
+		case r >= 0 && r < 1:
 			caseOffsetOn(im, w.view, " on the harness's reused buffer"+w.history())
 			w.log = append(w.log, fmt.Sprintf("CalcImageOffset(buffer holding image #%d, ...)", w.curIx))
-		case r < 5 && canCreate:
+		case r >= 0 && r < 5 && canCreate:
 			w.opCreateSegs()
-		case r < 9 && canCreate && !heavy:
+		case r >= 0 && r < 9 && canCreate && !heavy:
 			// what bg-prov bpm-gen does, now on an object that has been used before
 			w.opCreateSegs()
 			if !w.bigSegs() {
@@ -726,16 +832,27 @@ func caseSequence() {
 					w.opMatch()
 				}
 			}
-		case r < 11:
+		case r >= 0 && r < 11:
 			w.opSetSegs()
-		case r < 14 && !heavy:
+		case r >= 0 && r < 14 && !heavy:
 			w.opGetDigest()
-		case r < 16 && !heavy:
+		case r >= 0 && r < 16 && !heavy:
 			w.opCreateDigest()
-		case r < 17 && !heavy:
+		case r >= 0 && r < 17 && !heavy:
 			w.opMatch()
-		case r < 18:
-			w.opSetAlgs()
+		case r < 18 || r < 0:
+			if rng.Intn(4) == 0 {
+				w.opSetAlgs()
+				break
+			}
+			// the digest list rewritten with buffers kept, then (mostly) the digests generated again
+			w.opEditDigs()
+			if !heavy && rng.Intn(4) != 0 {
+				w.opCreateDigest()
+				if !im.Inner && rng.Intn(2) == 0 {
+					w.opMatch()
+				}
+			}
 		default:
 			if !im.Inner && !im.NoFit {
 				stitch()
